@@ -191,20 +191,25 @@ def gen_rebind(rng, i):
     def val():
         n[0] += 1
         return rng.choice([V.I(1000 + n[0]), V.S('t%d' % n[0]), V.I(0), V.FALSE, V.NONE, V.L(V.I(n[0]), V.I(2))])
+    focus = None       # the name touched last: half of the evaluations use it, so that every (re)binding is looked at
     for _ in range(rng.choice([6, 10, 16, 24])):
         r = rng.random()
         if r < 0.14:
-            ops.append(['var', rng.choice(RB_VARS), val()])
+            focus = rng.choice(RB_VARS)
+            ops.append(['var', focus, val()])
         elif r < 0.28:
-            ops.append(['fn', rng.choice(RB_FNS), [{'a': 'ret', 'v': val()}]])
+            focus = rng.choice(RB_FNS)
+            ops.append(['fn', focus, [{'a': 'ret', 'v': val()}]])
         elif r < 0.40:
-            ops.append(['unfn', rng.choice(RB_FNS)])
+            focus = rng.choice(RB_FNS)
+            ops.append(['unfn', focus])
         elif r < 0.50:
             ops.append(['on', rng.choice(EVENTS), [{'a': rng.choice(['set', 'set', 'noset']), 'v': [val()]}]])
         elif r < 0.58:
             ops.append(['off', rng.choice(EVENTS)])
         else:
-            ops.append(['eval', rng.choice(RB_FORMS)])
+            pool = [f for f in RB_FORMS if focus and focus in f]
+            ops.append(['eval', rng.choice(pool) if pool and rng.random() < 0.5 else rng.choice(RB_FORMS)])
     for f in rng.sample(RB_FORMS, 5):
         ops.append(['eval', f])
     return {'engine': 'rebind', 'ops': ops, 'clock': CLOCKS[0], 'rand': 0.25, 'tick_us': None, 'debug': rng.random() < 0.2,
